@@ -224,8 +224,9 @@ def fam_object_reuse(ctx, rng):
     pts, cls = gen_sensors(rng, boundary)
     obj = hvsrpy.HvsrSpatial(pts)
     seq = []
+    regs = None
     for step in range(int(rng.integers(2, 6))):
-        kind = str(rng.choice(["same", "tight", "wide", "shifted", "new-coordinates"]))
+        kind = str(rng.choice(["same", "same", "tight", "wide", "shifted", "new-coordinates"]))
         c = MV.convex_hull(boundary).mean(axis=0)
         if kind == "tight":
             B = c + (boundary - c) * float(rng.uniform(0.35, 0.8))
@@ -246,8 +247,10 @@ def fam_object_reuse(ctx, rng):
         info = dict(layout=cls, n=int(len(pts)), step=step, boundary_kind=kind, sequence=list(seq))
         try:
             if rng.random() < 0.5:
-                w, ind = obj.spatial_weights(B)
-                w = np.asarray(w, float)
+                w_out, ind = obj.spatial_weights(B)
+                w = np.array(w_out, float)
+                if isinstance(w_out, np.ndarray) and w_out.flags.writeable and rng.random() < 0.6:
+                    w_out *= 100.0
             else:
                 regs, ind = obj.bounded_voronoi(B)
                 w = np.array([abs(MV.area(np.asarray(r))) for r in regs]) / MV.area(MV.convex_hull(B))
@@ -256,6 +259,21 @@ def fam_object_reuse(ctx, rng):
             continue
         ctx.count("spatial_weight_calls")
         ok = list(ind) == list(idx) and w.shape == want.shape and bool(np.all(np.abs(w - want) <= 1e-7))
+        ind_seen = list(ind)
+        # what was handed out is the caller's: cells rescaled to kilometres for a map, weights turned into percent,
+        # the index list consumed - the next answer of the object is still the one for the boundary it is given
+        if rng.random() < 0.6:
+            handed = [w0 for w0 in (regs or []) if isinstance(w0, np.ndarray) and w0.flags.writeable]
+            for arr in handed:
+                arr /= 1000.0
+            if isinstance(ind, list) and ind:
+                ind.pop()
+                ind.reverse()
+            elif isinstance(ind, np.ndarray) and ind.flags.writeable:
+                ind[:] = ind[::-1].copy()
+            ctx.count("answers_edited_by_the_caller")
+            regs = None
+        ind = ind_seen
         ctx.check(ok, "reused-object-equals-fresh-object", "a reused HvsrSpatial object gives weights / indices that are not the "
                   "nearest-retained-sensor area fractions for the boundary it was just given", indices=list(ind)[:12],
                   expected_indices=idx[:12], n_weights=int(w.size), **info)
